@@ -68,12 +68,21 @@ Definition subset (a b : list Z) : bool := forallb (fun x => zmem x b) a.
 (* ---------------------------------------------------------------------------------------------------------------- *)
 Inductive cmp : Set := CEq | CNe | CLt | CLe | CGt | CGe.
 
+(* arithmetic terms: `age + 1`, `age * 2`, `bmi - age` *)
+Inductive term : Set :=
+  | TCol (c : cid)
+  | TConst (k : cell)
+  | TAdd (a b : term)
+  | TSub (a b : term)
+  | TMul (a b : term).
+
 Inductive qexpr : Set :=
   | QTrue                                   (* the empty query string *)
   | QCol (c : cid)                          (* a bare boolean column:  `tracked` *)
   | QCmp (c : cid) (o : cmp) (k : cell)     (* column OP constant:     `age >= 3`, `sex == 'x'`, `tracked == False` *)
   | QCmpC (c : cid) (o : cmp) (c' : cid)    (* column OP column:       `age > kids`, `sex != note` *)
   | QIn (c : cid) (ks : list cell)          (* membership:             `age in [1, 3]`, `sex == ['x', 'y']` *)
+  | QCmpT (a : term) (o : cmp) (b : term)   (* arithmetic comparison:  `age + 1 > 3`, `age * 2 == kids` *)
   | QAnd (a b : qexpr)                      (* `and`, `&` *)
   | QOr (a b : qexpr)                       (* `or`, `|` *)
   | QNot (a : qexpr).                       (* `not`, `~` *)
@@ -92,18 +101,51 @@ Definition cmp_z (o : cmp) (x y : Z) : bool :=
   | CEq => x =? y | CNe => negb (x =? y) | CLt => x <? y | CLe => x <=? y | CGt => y <? x | CGe => y <=? x
   end.
 
-(* NaN / None: every comparison false except `!=`; strings: (in)equality only *)
+(* NaN / None: every comparison false except `!=`; strings compare by their ids (the correspondence numbers the
+   strings in Python's string order, so that `<` on ids is `<` on strings) *)
 Definition eval_cmp (o : cmp) (v k : cell) : bool :=
   match num v, num k with
   | Some x, Some y => cmp_z o x y
   | _, _ =>
       match v, k, o with
-      | Sv a, Sv b, CEq => a =? b
-      | Sv a, Sv b, CNe => negb (a =? b)
-      | Sv _, Sv _, _ => false
+      | Sv a, Sv b, _ => cmp_z o a b
       | _, _, CNe => true
       | _, _, _ => false
       end
+  end.
+
+(* exact value of a numeric cell / term as a fraction (numerator, positive denominator); None = NaN or not a number *)
+Definition frac (v : cell) : option (Z * Z) :=
+  match v with
+  | Iv z => Some (z, 1)
+  | Fv z => Some (z, 4)
+  | Bv b => Some (if b then 1 else 0, 1)
+  | _ => None
+  end.
+
+Fixpoint tval (cs : list cid) (r : row) (t : term) : option (Z * Z) :=
+  match t with
+  | TCol c => frac (cell_of cs r c)
+  | TConst k => frac k
+  | TAdd a b => match tval cs r a, tval cs r b with
+                | Some (n1, d1), Some (n2, d2) => Some (n1 * d2 + n2 * d1, d1 * d2) | _, _ => None end
+  | TSub a b => match tval cs r a, tval cs r b with
+                | Some (n1, d1), Some (n2, d2) => Some (n1 * d2 - n2 * d1, d1 * d2) | _, _ => None end
+  | TMul a b => match tval cs r a, tval cs r b with
+                | Some (n1, d1), Some (n2, d2) => Some (n1 * n2, d1 * d2) | _, _ => None end
+  end.
+
+Definition eval_cmp_frac (o : cmp) (x y : option (Z * Z)) : bool :=
+  match x, y with
+  | Some (n1, d1), Some (n2, d2) => cmp_z o (n1 * d2) (n2 * d1)
+  | _, _ => match o with CNe => true | _ => false end
+  end.
+
+Fixpoint term_cols (t : term) : list cid :=
+  match t with
+  | TCol c => [c]
+  | TConst _ => []
+  | TAdd a b | TSub a b | TMul a b => term_cols a ++ term_cols b
   end.
 
 Fixpoint eval (cs : list cid) (r : row) (q : qexpr) : bool :=
@@ -113,6 +155,7 @@ Fixpoint eval (cs : list cid) (r : row) (q : qexpr) : bool :=
   | QCmp c o k => eval_cmp o (cell_of cs r c) k
   | QCmpC c o c' => eval_cmp o (cell_of cs r c) (cell_of cs r c')
   | QIn c ks => existsb (eval_cmp CEq (cell_of cs r c)) ks
+  | QCmpT a o b => eval_cmp_frac o (tval cs r a) (tval cs r b)
   | QAnd a b => eval cs r a && eval cs r b
   | QOr a b => eval cs r a || eval cs r b
   | QNot a => negb (eval cs r a)
@@ -126,6 +169,7 @@ Fixpoint qcols (q : qexpr) : list cid :=
   | QCmp c _ _ => [c]
   | QCmpC c _ c' => [c; c']
   | QIn c _ => [c]
+  | QCmpT a _ b => term_cols a ++ term_cols b
   | QAnd a b | QOr a b => qcols a ++ qcols b
   | QNot a => qcols a
   end.
@@ -203,6 +247,13 @@ Definition get (t : table) (v : view) (idx : list Z) (q : qexpr) : result frame 
         if negb (subset vc cs) then Rejected EPopulation
         else Ok (vc, project cs vc kept)
   end.
+
+(* manager.py:362-377 get_population(untracked): a copy of the whole table, or - when the table has a tracked column -
+   of the rows whose tracked cell is True (boolean mask `pop[pop.tracked]`: order kept) *)
+Definition population (t : table) (untracked : bool) : frame :=
+  let cs := colnames t in
+  (cs, if untracked || negb (zmem TRACKED cs) then trows t
+       else filter (fun lr => eval cs (snd lr) (QCol TRACKED)) (trows t)).
 
 (* does simulant l satisfy q on the table's current cells? (false for a label that is not in the table) *)
 Definition sat (t : table) (q : qexpr) (l : Z) : bool :=
@@ -285,6 +336,7 @@ Inductive op : Set :=
   | OSub (parent : nat) (cols : list cid) (code : Z) (ocols : list cid)
       (* parent.subview(cols) observed: 0 = view returned (with these .columns), 1 = PopulationError, 2 = other *)
   | OWrite (w : wr)                               (* an update the implementation accepted *)
+  | OPop (untracked : bool) (f : frame)          (* get_population(untracked) observed *)
   | ORead (v : nat) (idx : list Z) (q : qexpr) (code : Z) (f : frame).
       (* views[v].get(idx, q) observed: 0 = frame f, 1 = PopulationError, 2 = any other exception *)
 
@@ -320,6 +372,7 @@ Fixpoint run_ops (t : table) (views : list (option view)) (ops : list op) : opti
           end
       end
   | OWrite w :: rest => if wr_ok t w then run_ops (apply_wr t w) views rest else None
+  | OPop u f :: rest => if frame_agree true (population t u) f then run_ops t views rest else None
   | ORead k idx q code f :: rest =>
       match nth k views None with
       | None => None
